@@ -10,7 +10,11 @@ import random
 
 from harness.common import Ctx
 
-SPARK_OK = ["lev_sur", "dist_fn", "exact_city_tf", "exact_dob", "lev_dob", "amount", "km"]
+SPARK_OK = ["lev_sur", "dist_fn", "exact_city_tf", "exact_dob", "lev_dob", "amount", "km", "city_custom"]
+# comparisons only DuckDB and Spark accept (arrays, date parsing, regex); DateOfBirthComparison (damerau_levenshtein) and
+# EmailComparison (jaro_winkler) need the Scala UDF jar that the installed Spark 4 lacks: recorded, not run
+FORCED = [["arr_intersect", "date_diff", "lev_sur"], ["postcode", "exact_city_tf", "amount"], ["date_diff", "arr_intersect", "km"], None]
+NEEDS_UDF_JAR = ["dob_cmp", "email"]
 
 
 def session():
@@ -18,7 +22,7 @@ def session():
     from pyspark.sql import SparkSession
     spark = (SparkSession.builder.master("local[2]").appName("verif-c06").config("spark.ui.enabled", "false")
              .config("spark.sql.shuffle.partitions", "2").config("spark.default.parallelism", "2")
-             .config("spark.sql.ansi.enabled", "false").getOrCreate())
+             .config("spark.sql.ansi.enabled", "false").config("spark.sql.session.timeZone", "UTC").getOrCreate())
     spark.sparkContext.setLogLevel("OFF")
     return spark
 
@@ -31,13 +35,19 @@ def run(ctx: Ctx):
     def sx(q):
         return spark.sql(q).collect()[0][0]
     c06.table_stage(ctx, ["spark"], spark_exec=sx)
-    n = 3
+    n = len(FORCED)
+    ctx.cov["spark_comparisons_needing_udf_jar_not_run"] = NEEDS_UDF_JAR
     terms, metas = [], []
     for i in range(n):
         case = c06_x.gen_pipeline(ctx.rng, 1000 + i, ["duckdb", "spark"])
-        case["spec"]["comparisons"] = [c for c in case["spec"]["comparisons"] if c in SPARK_OK] or ["lev_sur", "exact_city_tf"]
-        if len(case["spec"]["comparisons"]) < 2:
-            case["spec"]["comparisons"].append("amount" if "amount" not in case["spec"]["comparisons"] else "lev_sur")
+        if FORCED[i]:
+            case["spec"]["comparisons"] = list(FORCED[i])
+        else:
+            case["spec"]["comparisons"] = [c for c in case["spec"]["comparisons"] if c in SPARK_OK] or ["lev_sur", "exact_city_tf"]
+            if len(case["spec"]["comparisons"]) < 2:
+                case["spec"]["comparisons"].append("amount" if "amount" not in case["spec"]["comparisons"] else "lev_sur")
+        for c in case["spec"]["comparisons"]:
+            ctx.hist("spark_comparison_in_pipeline", c)
         try:
             ref = c06_x.run_backend(case, "duckdb")
         except Exception as e:
